@@ -649,7 +649,7 @@ def units_C15(tier, seed):
         if th or i % 9 == 1:
             U.append(dict(u, name=f'c15_{base}.dsan', flavour='dsan', diff=False, weight=u['weight'] * 5, cfg=cfg))
         if (th or i % 6 == 2) and u['weight'] <= 40 and not u['name'].startswith('c12_'):
-            U.append(dict(u, name=f'c15_{base}.equiv', flavour='rel', product='dbg', diff=False, weight=u['weight'] * 6, max_pairs=6000, cfg=cfg))
+            U.append(dict(u, name=f'c15_{base}.equiv', flavour='rel', product='dbg', diff=False, weight=u['weight'] * 6, max_pairs=40000, cfg=cfg))
     return U
 
 
